@@ -872,6 +872,7 @@ func (c *Ctx) checkListPaths(o *obs, f *ssa.Function, sp listSpec) {
 		ev := 0
 		okStream := true
 		why := ""
+		dictOK, dictWhy := true, ""
 		nextEvents := func(upto func(e Ev) bool) (writes []pseg, hit *Ev) {
 			for ev < len(p.Events) {
 				e := &p.Events[ev]
@@ -967,7 +968,7 @@ func (c *Ctx) checkListPaths(o *obs, f *ssa.Function, sp listSpec) {
 				l3 := fact3(F, "lt(1,len("+sp.list+"))")
 				okGuard := (v3[1] && !v3[0]) || (d3[1] && !d3[0]) || (l3[1] && !l3[0])
 				if !okGuard {
-					okStream, why = false, fmt.Sprintf("item %d is rendered although it may be a Dict next to other Values items (values %v, Dict %v, several %v)", k, v3, d3, l3)
+					dictOK, dictWhy = false, fmt.Sprintf("item %d is rendered although it may be a Dict next to other Values items (values %v, Dict %v, several %v)", k, v3, d3, l3)
 				}
 			}
 		}
@@ -988,6 +989,9 @@ func (c *Ctx) checkListPaths(o *obs, f *ssa.Function, sp listSpec) {
 			continue
 		}
 		t.note("nil / null items produce nothing; every other item is rendered, preceded by the separator iff an item was rendered before (and by a newline iff multi-line)", okStream, "path %s: %s (facts %s)", traceOf(p), why, F)
+		if sp.dictGuard {
+			t.note("a Dict is rendered only as the single item of a Values list", dictOK, "path %s: %s (facts %s)", traceOf(p), dictWhy, F)
+		}
 		// registration pre-pass
 		if sp.register {
 			okReg := true
@@ -1247,7 +1251,7 @@ func rulePXIsNull(c *Ctx) []Obligation {
 				continue // a failed assertion: T-TOKCONTENT
 			}
 			for _, e := range p.Events {
-				if e.Kind != "panic" {
+				if e.Kind != "panic" && e.Kind != "assert" {
 					t.note("the null test of a token has no effect", false, "path %s: %s %s", traceOf(p), e.Kind, e.Name)
 				}
 			}
